@@ -246,6 +246,12 @@ def shortest_configured(mods):
     return min(DEFAULT_INTERVAL if m["iv"] is None else m["iv"] for m in mods)
 
 
+def accepted(mods):
+    """Configure accepts the configuration (since /repo 38fa1ff): every module's interval, default 60 included, is a
+    positive time.Duration in seconds, 1 .. 9223372036.  A refused configuration prints CFGPANIC on both sides."""
+    return all(1 <= (DEFAULT_INTERVAL if m["iv"] is None else m["iv"]) <= MAX_INTERVAL for m in mods)
+
+
 def cfg_line(src, root, slow, mods, now0, groups, events):
     toks = ["cfg", src, root, "1" if slow else "0", str(len(mods))]
     for m in mods:
@@ -276,8 +282,13 @@ def focus_case(case_or_mods, src="set"):
     if isinstance(case_or_mods, str):
         src = parse_cfg(case_or_mods)["src"]
     exp = shortest_configured(mods)
-    if exp is None or exp < 0 or exp > MAX_INTERVAL:
+    if exp is None:
         return None
+    if not accepted(mods):
+        # refused by Configure: both sides print CFGPANIC; if an implementation accepts an interval beyond 9223372036 s
+        # these three ticks show what it does with it
+        return cfg_line(src, "/burrow", False, mods, T0, [(1, 0)] if exp > MAX_INTERVAL else [],
+                        [("k", T0), ("t", T0 + MS), ("t", T0 + 2 * MS)] if exp > MAX_INTERVAL else [])
     now = min(T0, I64_MAX - exp * NS - 10)
     return cfg_line(src, "/burrow", False, mods, now, [(1, now - exp * NS - 1)],
                     [("k", now), ("t", now + exp * NS - 1), ("t", now + exp * NS), ("t", now + exp * NS + 1)])
@@ -294,7 +305,25 @@ def _fmt_val(rng, v):
     return "S%d" % v
 
 
+INVALID_INTERVALS = [0, 0, -1, -5, -60] + WRAP_INTERVALS + [MAX_INTERVAL + 1]
+
+
 def gen_mods(rng):
+    """Mostly configurations Configure accepts (every interval in 1 .. 9223372036, values around a common base, the
+    boundaries 1 and 9223372036 included); about one in eight has ONE module with a refused interval."""
+    mods = _gen_mods(rng)
+    for m in mods:
+        if m["iv"] is not None and not 1 <= m["iv"] <= MAX_INTERVAL:
+            m["iv"] = rng.choice([1, 1, 2, MAX_INTERVAL])
+            m["toks"][0] = _fmt_val(rng, m["iv"])
+    if mods and rng.random() < 0.12:
+        m = rng.choice(mods)
+        m["iv"] = rng.choice(INVALID_INTERVALS)
+        m["toks"][0] = _fmt_val(rng, m["iv"])
+    return mods
+
+
+def _gen_mods(rng):
     nm = rng.choice([0, 1, 1, 1, 2, 2, 2, 2, 2, 3, 3, 3, 3, 4, 4, 4])
     base = rng.choice([0, 1, 2, 5, 30, 59, 60, 61, 300, 1000, LARGE_INTERVAL, MAX_INTERVAL])
     ids = rng.sample(range(1, 10), nm)
@@ -331,6 +360,9 @@ def cfg_tags(mods):
     exp = shortest_configured(mods)
     if exp is None:
         return tags + ["no-module"]
+    if not accepted(mods):
+        bad = [m["iv"] for m in mods if m["iv"] is not None and not 1 <= m["iv"] <= MAX_INTERVAL]
+        return tags + ["refused", "refused:" + ("zero" if 0 in bad else "negative" if min(bad) < 0 else "too-large")]
     eff = [DEFAULT_INTERVAL if m["iv"] is None else m["iv"] for m in mods]
     effs = [m["sv"] if m["sv"] is not None else e for m, e in zip(mods, eff)]
     byname = [e for _, e in sorted(zip([str(m["id"]) for m in mods], eff))]
@@ -372,7 +404,7 @@ def gen_cfg(rng, idx, scenario=True):
     tags = set(cfg_tags(mods))
     tags.add("src=" + src)
     now = T0 + rng.randrange(0, 10**6) * MS
-    if not scenario or mi < 0 or now + mi * NS + 10 > I64_MAX:
+    if not scenario or not accepted(mods) or now + mi * NS + 10 > I64_MAX:
         tags.add("config-only")
         return cfg_line(src, root, False, mods, now, [], []), sorted(tags)
     slow = rng.random() < 0.35
@@ -459,8 +491,8 @@ def gen_cfg(rng, idx, scenario=True):
     return cfg_line(src, root, slow, mods, now0, sorted(groups.items()), evs), sorted(tags)
 
 
-# one null module with interval 0: the configuration of the loop scenarios (heartbeat)
-LOOP_CFG = cfg_line("set", "/burrow", False, [{"id": 1, "class": "null", "iv": 0, "sv": None, "th": 1, "toks": ["0", "-", "1"]}],
+# one null module with interval 1: the configuration of the loop scenarios
+LOOP_CFG = cfg_line("set", "/burrow", False, [{"id": 1, "class": "null", "iv": 1, "sv": None, "th": 1, "toks": ["1", "-", "1"]}],
                     T0, [], [])
 
 
@@ -517,7 +549,7 @@ def _iso_mods(rng, positive):
     for _ in range(50):
         mods = gen_mods(rng)
         exp = shortest_configured(mods)
-        if exp is None or exp > 100000 or exp < (1 if positive else 0):
+        if exp is None or exp > 100000 or exp < 1 or not accepted(mods):
             continue
         return mods, exp
     m = _m(1, "null", 30, None, None)
@@ -717,9 +749,9 @@ FIXED_R3 = [
 # ---- round 4 (audit D): beyond the bound of the pacing theorems; the Int63n panic; a late reply ----------------------
 
 def gen_cfg_wrap(rng, idx):
-    """Every module's interval is beyond 9223372036 s: -time.Duration(interval) * time.Second wraps.  The configured loop
-    is run all the same (lock, ticks 1 ms .. 1 s apart, expiry, re-lock): the model wraps as Go does and must agree with
-    the code; the property's oracle does not apply (C15_pacing_wrap_refuted)."""
+    """Every module's interval is beyond 9223372036 s, where -time.Duration(interval) * time.Second would wrap.  Since
+    /repo 38fa1ff Configure refuses such a configuration: both sides print CFGPANIC and the scripted events are not
+    reached (before the fix the loop ran and requested every entry every millisecond: C15_pacing_wrap_refuted)."""
     nm = rng.randrange(1, 3)
     ids = rng.sample(range(1, 10), nm)
     mods = []
